@@ -255,9 +255,17 @@ def disturb(obj, call, B):
 
 def check_history(c):
     kind = c["kind"]
+    sib = sibref = None
     if kind == "blake":
         obj = guard(Blake, c["n"])
+        if c.get("sib"):
+            sn = {224: 256, 256: 512, 384: 224, 512: 384}[c["n"]]
+            sib, sibref = guard(Blake, sn), (lambda m: RB.blake(sn, m, None, 0))
         for i, call in enumerate(c["calls"]):
+            if sib is not None and i % 2 == 1:
+                sm = bytes(range(i, i + 70))
+                if guard(sib, sm) != sibref(sm):
+                    raise Violation("blake:reused-object:sibling-object!=submission", None, None)
             if call[0] == "disturb":
                 disturb(obj, call, bb(c["n"]))
                 continue
@@ -274,7 +282,14 @@ def check_history(c):
     else:
         w = 64 if kind == "blake2b" else 32
         obj = guard(Blake2, 512 if kind == "blake2b" else 256)
+        if c.get("sib"):
+            sk = "blake2s" if kind == "blake2b" else "blake2b"
+            sib, sibref = guard(Blake2, 512 if sk == "blake2b" else 256), (lambda m: b2_ref({"f": sk, "M": m, "params": {}}))
         for i, call in enumerate(c["calls"]):
+            if sib is not None and i % 2 == 1:
+                sm = bytes(range(i, i + 70))
+                if guard(sib, sm) != sibref(sm):
+                    raise Violation("blake2:reused-object:sibling-object!=rfc7693", None, None)
             if call[0] == "disturb":
                 disturb(obj, call, 2 * w)
                 continue
@@ -292,7 +307,7 @@ def history_strategy(tier):
         call = st.tuples(gen.blob_of(gen.uint(0, 2 * bb(n) + 3)), gen.pick((1, st.just(0)), (1, gen.nbits(4 * w))), gen.uint(0, 9)).map(
             lambda t: (t[0], t[1], None if t[2] > 6 or not t[0] else 8 * len(t[0]) - t[2]))
         return st.lists(gen.pick((4, call), (1, dist)), min_size=2, max_size=4).map(
-            lambda l: {"kind": "blake", "n": n, "calls": tuple(l) + ((b"after", 0, None),) * (l[-1][0] == "disturb")})
+            lambda l: {"kind": "blake", "n": n, "sib": len(l[0][0]) % 2, "calls": tuple(l) + ((b"after", 0, None),) * (l[-1][0] == "disturb")})
 
     def blake2_h(which):
         w = 64 if which == "blake2b" else 32
@@ -301,7 +316,7 @@ def history_strategy(tier):
                                                   "depth": gen.uint(1, 255), "inner": gen.uint(0, w), "ndepth": gen.uint(0, 255)})
         call = st.tuples(gen.blob_of(gen.uint(0, 5 * w)), par)
         return st.lists(gen.pick((4, call), (1, dist)), min_size=2, max_size=4).map(
-            lambda l_: {"kind": which, "calls": tuple(l_) + ((b"after", {}),) * (l_[-1][0] == "disturb")})
+            lambda l_: {"kind": which, "sib": len(l_[0][0]) % 2, "calls": tuple(l_) + ((b"after", {}),) * (l_[-1][0] == "disturb")})
     return gen.pick((1, st.sampled_from([224, 256, 384, 512]).flatmap(blake_h)), (1, st.sampled_from(["blake2b", "blake2s"]).flatmap(blake2_h)))
 
 
@@ -326,7 +341,8 @@ FACETS = [
                "or uniformly large; update(tail, padding=True) == resumable reference"),
     Facet("reused-object", check_history, strategy=history_strategy, budget={"quick": 1000, "thorough": 15000}, shards={"quick": 16, "thorough": 32},
           nontrivial=lambda c: True,
-          classify=lambda c: (c["kind"], "has streaming/refused call" if any(x[0] == "disturb" for x in c["calls"]) else "one-shot only"),
+          classify=lambda c: (c["kind"], "has streaming/refused call" if any(x[0] == "disturb" for x in c["calls"]) else "one-shot only",
+                              "sibling object of another size" if c.get("sib") else "no sibling"),
           rule="2..5 calls on ONE object: one-shot digests with changing salt / bit length / BLAKE2 parameters, interleaved with streaming "
                "update() calls (one whole block, or a padded final piece) and refused calls; every one-shot digest is judged"),
 ]
